@@ -53,15 +53,28 @@ def gen_schedule(rng, seg_ticks_at_100: int = 400) -> dict:
     count = rng.choice([0, 0, 1, 2, 3, 4, 5, 8, 10, 50, rng.randrange(1, 30)])
     start = rng.choice([0, 0, 1, seg // 2, seg, seg - 1, seg + 1, 3 * seg, 9 * seg, 10 * seg, 12 * seg,
                         rng.randrange(0, 12 * seg + 1)])
-    return {'timescale': ts, 'interval': interval, 'count': count, 'start': start,
-            'duration': rng.choice([0, 1, ts, 2 * ts, 200]), 'version': rng.choice([0, 1]),
-            'inband': rng.random() < 0.8, 'value': rng.choice([None, '0', '7'])}
+    s = {'timescale': ts, 'interval': interval, 'count': count, 'start': start,
+         'duration': rng.choice([0, 1, ts, 2 * ts, 200]), 'version': rng.choice([0, 1]),
+         'inband': rng.random() < 0.8, 'value': rng.choice([None, '0', '7'])}
+    if rng.random() < 0.12:
+        # one or two options present but blank (or "none"): they take their documented defaults
+        blank = rng.sample(['interval', 'start', 'duration', 'count', 'timescale'], rng.choice([1, 1, 2]))
+        for k in blank:
+            s[k] = EVENT_DEFAULTS[k]
+        s['blank'], s['blank_text'] = blank, rng.choice(['', 'none'])
+    return s
+
+
+# what an event option means when it is absent or sent blank (an HTML form posts a blank number field as "")
+EVENT_DEFAULTS = {'timescale': 100, 'interval': 1000, 'count': 0, 'start': 0, 'duration': 200, 'version': 0}
 
 
 def schedule_params(kind: str, s: dict) -> dict:
     p = {'events': kind}
     for k in ('timescale', 'interval', 'count', 'start', 'duration', 'version'):
         p[f'{kind}__{k}'] = str(s[k])
+    for k in s.get('blank', ()):
+        p[f'{kind}__{k}'] = s['blank_text']
     p[f'{kind}__inband'] = '1' if s['inband'] else '0'
     if s.get('value') is not None and kind == 'ping':
         p[f'{kind}__value'] = s['value']
